@@ -8,6 +8,7 @@ package main
 import (
 	"context"
 	"fmt"
+	"os"
 	"runtime"
 	"sort"
 	"strings"
@@ -47,6 +48,14 @@ type tracker struct {
 // (another thread stepped during the call) begins an index the mark may already have
 // passed legitimately, so it is only counted when the call ran without interference.
 func (t *tracker) begin(idx ...uint64) {
+	if schedmc.FreeRunning {
+		if len(idx) == 1 {
+			t.w.Begin(idx[0])
+		} else {
+			t.w.BeginMany(idx)
+		}
+		return
+	}
 	du := t.w.DoneUntil()
 	sw := vsched.SwitchCount()
 	raced := t.inflight > 0 // another thread is in the middle of a Begin/Done call right now
@@ -73,6 +82,14 @@ func (t *tracker) begin(idx ...uint64) {
 }
 
 func (t *tracker) done(idx ...uint64) {
+	if schedmc.FreeRunning {
+		if len(idx) == 1 {
+			t.w.Done(idx[0])
+		} else {
+			t.w.DoneMany(idx)
+		}
+		return
+	}
 	for _, i := range idx {
 		t.doneInv[i]++
 	}
@@ -86,6 +103,10 @@ func (t *tracker) done(idx ...uint64) {
 }
 
 func (t *tracker) wait(i uint64) {
+	if schedmc.FreeRunning {
+		_ = t.w.WaitForMark(context.Background(), i)
+		return
+	}
 	// indices that were legitimately begun (returned) before this wait was invoked
 	pendingBefore := map[uint64]int{}
 	for j, n := range t.begun {
@@ -280,6 +301,15 @@ func setupFor(sc scenario) func() *schedmc.Exec {
 }
 
 func main() {
+	if os.Getenv("VERIF_PROP") == "C32-race" {
+		// supporting pass: the same thread bodies, free-running under the race detector
+		r := vr.Start("C32-race")
+		var scs []schedmc.Scenario
+		for _, sc := range scenarios(true) {
+			scs = append(scs, schedmc.Scenario{Name: sc.name, Setup: setupFor(sc)})
+		}
+		schedmc.FreeRunMain(r, scs, r.Pick(200, 2000))
+	}
 	r := vr.Start("C32")
 	scs := scenarios(r.Thorough())
 	bound := r.Pick(2, 3)
